@@ -200,6 +200,7 @@ class RxScenario:
         self._patch.start()
         FakeClient.instances.clear()
         FakeClient.plan = {}
+        FakeClient.delivery = cfg.get("delivery", "qos0")
         self.t = MQTTClient("broker", 1883, in_prefix="p-out", out_prefix="p-in")
         k, v = runc(loop, self.t.connect())
         assert k == "ok", (k, v)
@@ -327,6 +328,7 @@ class RxScenario:
                     continue
                 bad(f"loop-error:{type(e).__name__}", f"event loop exception handler: {c.get('message')} {e!r}")
         finally:
+            FakeClient.delivery = "qos0"
             self._patch.stop()
         return viols
 
@@ -345,6 +347,10 @@ def rx_configs(quick: bool) -> list:
         for seq in itertools.product("ABX", repeat=n):
             out.append({"arrivals": list(seq), "reads": n, "disconnect": False})
             out.append({"arrivals": list(seq[:-1]) + ["E"], "reads": n, "disconnect": False})
+    # delivery metadata: every message arrives as QoS 1 with the same packet id (brokers reuse ids), or retained
+    for dl in ("same-mid", "retained"):
+        for seq in (["A", "B"], ["A", "A", "B"], ["B", "X", "A"]):
+            out.append({"arrivals": seq, "reads": len(seq), "disconnect": False, "delivery": dl})
     # a read times out (is cancelled) once or twice, at any moment relative to the arrivals, and the application reads again
     for seq in (["A"], ["A", "B"], ["X", "A"], ["B", "A", "B"]):
         out.append({"arrivals": seq, "reads": len(seq), "disconnect": False, "timeouts": 1})
